@@ -11,7 +11,7 @@ pub enum TokenKind {
     Space,
     #[regex(r"//[^\r\n]*[\r\n]*")]
     CommentLine,
-    #[regex(r"/\*([^*]|\*[^/])*\*/")]
+    #[regex(r"/\*[^*]*\*+([^/*][^*]*\*+)*/")]
     CommentBlock,
     #[token("num")]
     PrimitiveNum,
